@@ -1,7 +1,7 @@
 /-
   Proofs/DispatchStep.lean — C19: one program step with an operation of the classes in `goodOp` keeps `AlignedV`.
 -/
-import Deepali.Proofs.DispatchNarrow
+import Deepali.Proofs.DispatchAppend
 
 set_option linter.unusedSectionVars false
 
@@ -159,7 +159,8 @@ theorem alignedV_stepOne_image (a0 : Nat) (other : Option SVal) (op : TOp) (f : 
   case copy =>
     cases f with
     | false => simp only [copyVal]; exact alignedV_ofExcept_mkImage a0 t g hal.2.1
-    | true => simp only [copyVal]; exact alignedV_err a0 _
+    | true => simp only [copyVal]; exact alignedV_ofExcept_mkFlowField a0 t g a hal.2.1 (hal.2.2 rfl)
+  case append => exact alignedV_err a0 _
   case deepcopy =>
     cases f with
     | false => simp only [deepcopyVal]; exact alignedV_ofExcept_mkImage a0 t g hal.2.1
@@ -200,8 +201,7 @@ theorem alignedV_stepOne_batch (a0 : Nat) (other : Option SVal) (op : TOp) (f : 
   case splitL secs dm => exact alignedV_batchTF_splitL a0 secs dm f t gs a other hgood hal
   case splitWS secs dm => exact alignedV_batchTF_splitWS a0 secs dm f t gs a other hgood hal
   case narrowM dm st ln =>
-    simp only [Bool.and_eq_true, decide_eq_true_eq] at hgood
-    exact alignedV_batchNarrow a0 f a t gs dm st ln hgood.1 hgood.2 hal
+    exact alignedV_batchNarrow a0 f a t gs dm st ln (by simpa using hgood) hal
   case tsplitL idx dm => exact alignedV_batchTF_tsplitL a0 idx dm f t gs a other hgood hal
   case cat ops dm => exact alignedV_batchTF_cat a0 ops dm f t gs a other hgood hal hother
   case narrowF dm st ln =>
@@ -227,7 +227,8 @@ theorem alignedV_stepOne_batch (a0 : Nat) (other : Option SVal) (op : TOp) (f : 
   case copy =>
     cases f with
     | false => simp only [copyVal]; exact alignedV_ofExcept_mkImageBatch a0 t gs hal.1 hal.2.2.1
-    | true => simp only [copyVal]; exact alignedV_err a0 _
+    | true => simp only [copyVal]; exact alignedV_makeInstance a0 true a t gs hal.2.2.2 hal.1 hal.2.2.1
+  case append => exact alignedV_batchAppend a0 f a t gs other hal hother
   case deepcopy =>
     simp only [deepcopyVal]
     exact alignedV_makeInstance a0 f a t gs hal.2.2.2 hal.1 hal.2.2.1
